@@ -16,13 +16,14 @@ structure RawGraph where
 
 def RawGraph.numDomain (g : RawGraph) : Nat := g.domainPtr.length - 1
 
-/-- `Graph::serialize` -/
+/-- `Graph::serialize`: a pointer array of length ≤ 1 (graph without domain nodes) is not stored -/
 def RawGraph.serialize (g : RawGraph) : List Nat :=
-  let s := 5 + g.domainPtr.length + g.imageIdx.length
+  let nptr := if g.domainPtr.length > 1 then g.domainPtr.length else 0
+  let s := 5 + nptr + g.imageIdx.length
   let header := [graphMagic, s * 8, (if g.domainPtr.isEmpty then 0 else g.domainPtr.length - 1), g.numImage, g.imageIdx.length]
   if g.domainPtr.length ≤ 1 then
     -- "empty graph": the buffer is zero-filled behind the header
-    header ++ List.replicate (g.domainPtr.length + g.imageIdx.length) 0
+    header ++ List.replicate g.imageIdx.length 0
   else header ++ g.domainPtr ++ g.imageIdx
 
 /-- `Graph(buffer)`; `none` = XASSERT (too short, wrong magic, wrong size field).  Reads beyond the buffer are
@@ -40,8 +41,9 @@ def RawGraph.deserialize (w : List Nat) : Option RawGraph :=
     let idx := if ni > 0 then (List.range ni).map (fun i => x.getD i 0) else []
     some { numImage := w.getD 3 0, domainPtr := ptr, imageIdx := idx }
 
-/-- the graphs for which the byte-for-byte clause holds: at least one domain node, consistent arrays -/
+/-- well-formed graphs: a graph without domain nodes has no adjacencies; otherwise consistent arrays -/
 def RawGraph.wf (g : RawGraph) : Bool :=
-  g.domainPtr.length ≥ 2 && g.domainPtr.getLastD 0 == g.imageIdx.length
+  (g.domainPtr.length ≤ 1 && g.imageIdx.isEmpty) ||
+  (g.domainPtr.length ≥ 2 && g.domainPtr.getLastD 0 == g.imageIdx.length)
 
 end FeatModel.C11
